@@ -51,9 +51,9 @@ def confirm(wt, sd):
     out['demo_patched_rc'] = rc1
     out['demo_patched_tail'] = o1[-600:]
     rct, ot = sh('%s -m pytest -q -p no:cacheprovider --timeout=900 --continue-on-collection-errors tests' % PY, cwd=wt, env=env)
-    m = re.search(r'(\d+) failed, (\d+) passed', ot)
+    m = re.search(r'(\d+) failed, (\d+) passed', ot) or re.search(r'()(\d+) passed', ot)
     out['tests'] = ot.strip().splitlines()[-1] if ot.strip() else ''
-    out['tests_ok'] = bool(m and m.group(2) == '83' and m.group(1) == '3')
+    out['tests_ok'] = bool(m and int(m.group(2)) + int(m.group(1) or 0) == 86 and int(m.group(1) or 0) in (0, 3))
     sh('git checkout -- atomman', cwd=wt)
     if pyx:
         sh('%s setup.py build_ext --inplace' % PY, cwd=wt)
